@@ -81,6 +81,13 @@ enum V {
     ResBox(DiplomatResult<Box<Tracked>, Vec<Tracked>>),
     StdRes(Result<Tracked, Tracked>),
     StdResBox(Result<Box<Tracked>, Vec<Tracked>>),
+    ResPodOk(DiplomatResult<u32, Tracked>),
+    StdResPodOk(Result<u32, Tracked>),
+    ResUnitOk(DiplomatResult<(), Vec<Tracked>>),
+    StdResUnitOk(Result<(), Vec<Tracked>>),
+    ResPodErr(DiplomatResult<Box<Tracked>, u64>),
+    StdResPodErr(Result<Box<Tracked>, u64>),
+    OptPod(DiplomatOption<u64>, Option<u64>),
     Opt(DiplomatOption<Tracked>),
     StdOpt(Option<Tracked>),
     StdOptConv(Option<Converted>),
@@ -110,6 +117,13 @@ fn kind(v: &V) -> &'static str {
         V::ResBox(_) => "DiplomatResult<Box<T>,Vec<E>>",
         V::StdRes(_) => "Result<T,E>",
         V::StdResBox(_) => "Result<Box<T>,Vec<E>>",
+        V::ResPodOk(_) => "DiplomatResult<u32,E>",
+        V::StdResPodOk(_) => "Result<u32,E>",
+        V::ResUnitOk(_) => "DiplomatResult<(),Vec<E>>",
+        V::StdResUnitOk(_) => "Result<(),Vec<E>>",
+        V::ResPodErr(_) => "DiplomatResult<Box<T>,u64>",
+        V::StdResPodErr(_) => "Result<Box<T>,u64>",
+        V::OptPod(..) => "DiplomatOption<u64>",
         V::Opt(_) => "DiplomatOption<T>",
         V::StdOpt(_) => "Option<T>",
         V::StdOptConv(_) => "Option<U: From<T>>",
@@ -147,7 +161,7 @@ fn create(rng: &mut Rng) -> Entry {
         t
     };
     let arm = rng.chance(1, 2);
-    let v = match rng.below(14) {
+    let v = match rng.below(18) {
         0 => V::Res(if arm { Ok(t(&mut ids)) } else { Err(t(&mut ids)) }.into()),
         1 => V::StdRes(if arm { Ok(t(&mut ids)) } else { Err(t(&mut ids)) }),
         2 => {
@@ -215,6 +229,16 @@ fn create(rng: &mut Rng) -> Entry {
             })
         }
         12 => V::Write(diplomat_buffer_write_create(rng.below(9) as usize)),
+        13 => V::ResPodOk(if arm { Ok(rng.next() as u32) } else { Err(t(&mut ids)) }.into()),
+        14 => {
+            let n = 1 + rng.below(3) as usize;
+            V::ResUnitOk(if arm { Ok(()) } else { Err(tracked_vec(n, &mut ids)) }.into())
+        }
+        15 => V::ResPodErr(if arm { Ok(Box::new(t(&mut ids))) } else { Err(rng.next()) }.into()),
+        16 => {
+            let o = if arm { Some(rng.next()) } else { None };
+            V::OptPod(o.into(), o)
+        }
         _ => {
             let n = rng.below(3) as usize;
             V::StdOptBoxSlice(if arm { Some(tracked_vec(n, &mut ids).into_boxed_slice()) } else { None })
@@ -250,6 +274,25 @@ fn observe(e: &mut Entry, rng: &mut Rng) {
             Ok(t) => vec![t.check()],
             Err(v) => ids_of_slice(v),
         }),
+        V::ResPodOk(r) => Some(match r.as_ref() {
+            Ok(_) => vec![],
+            Err(t) => vec![t.check()],
+        }),
+        V::ResUnitOk(r) => Some(match r.as_ref() {
+            Ok(()) => vec![],
+            Err(v) => ids_of_slice(v),
+        }),
+        V::ResPodErr(r) => Some(match r.as_ref() {
+            Ok(t) => vec![t.check()],
+            Err(_) => vec![],
+        }),
+        V::OptPod(o, want) => {
+            let got = o.as_ref().ok().copied();
+            if got != *want {
+                viol(format!("C03 DiplomatOption<u64> reads {:?}, expected {:?}", got, want));
+            }
+            None
+        }
         V::Opt(o) => Some(match o.as_ref() {
             Ok(t) => vec![t.check()],
             Err(()) => vec![],
@@ -315,6 +358,19 @@ fn convert(e: Entry) -> Entry {
         V::StdRes(r) => V::Res(r.into()),
         V::ResBox(r) => V::StdResBox(r.into()),
         V::StdResBox(r) => V::ResBox(r.into()),
+        V::ResPodOk(r) => V::StdResPodOk(r.into()),
+        V::StdResPodOk(r) => V::ResPodOk(r.into()),
+        V::ResUnitOk(r) => V::StdResUnitOk(r.into()),
+        V::StdResUnitOk(r) => V::ResUnitOk(r.into()),
+        V::ResPodErr(r) => V::StdResPodErr(r.into()),
+        V::StdResPodErr(r) => V::ResPodErr(r.into()),
+        V::OptPod(o, w) => {
+            let back: Option<u64> = o.clone().into_option();
+            if back != w {
+                viol(format!("C03 DiplomatOption<u64> -> Option reads {:?}, expected {:?}", back, w));
+            }
+            V::OptPod(o, w)
+        }
         V::Opt(o) => {
             if ids.len() % 2 == 0 || ids.first().map(|i| i % 2 == 0).unwrap_or(false) {
                 V::StdOpt(o.into_option())
@@ -360,6 +416,9 @@ fn try_clone(e: &Entry) -> Option<Entry> {
         V::Res(r) => V::Res(r.clone()),
         V::ResBox(r) => V::ResBox(r.clone()),
         V::Opt(o) => V::Opt(o.clone()),
+        V::ResPodOk(r) => V::ResPodOk(r.clone()),
+        V::ResUnitOk(r) => V::ResUnitOk(r.clone()),
+        V::ResPodErr(r) => V::ResPodErr(r.clone()),
         _ => return None,
     };
     let after = next_id();
